@@ -13,3 +13,5 @@ import Proofs.C07
 #print axioms C07.unknown_order_rejected
 #print axioms C07.unit_in_projection_rejected
 #print axioms C07.config_in_filter_rejected
+#print axioms C07.first_token_error_rejects
+#print axioms C07.unterminated_quote_text_rejected
